@@ -94,6 +94,12 @@ def cases(shard, rnd):
             yield {'index': idx,
                    'vals': gf.assignment(rnd, spec, big=rnd.random() < 0.02),
                    'ch': gf.rchannel(rnd), 'why': 'random'}
+        # several arguments at once from the live dictionary (constants
+        # found in the source of the tree under test)
+        for _ in range(shard['n_random'] // 3):
+            yield {'index': idx,
+                   'vals': gf.assignment(rnd, spec, magic=0.7),
+                   'ch': gf.rchannel(rnd), 'why': 'magic'}
 
 
 _argseen = {}
